@@ -367,7 +367,14 @@ MissingAll == {<<m, n>> \in UNION {{<<m, n>> : n \in All[m]} : m \in DOMAIN All}
 AllAdvertised == MissingAll = {}
 
 BadLoads(f) == {ld \in FLoads[f] : ~NameBound(FMod[f], ld.name)}
-BadChains(f) == {c \in FChains[f] : NameBound(FMod[f], c.root) /\ ~ChainRes(FMod[f], c).ok}
+\* A chain below a handler that catches AttributeError (guard = "A") is excused only when what is missing is a
+\* plain attribute: that is what such a handler is written for (feature probing), and it is missing in every
+\* import state alike.  A missing SUBMODULE of the tree (on.attr is a module that exists but nothing the entry
+\* imports has loaded) is present after the whole framework has been imported and absent here: the handler would
+\* silently take another path depending on the import state, so no enclosing handler excuses it.
+MissingIsSubmodule(r) == r.on # "" /\ (r.on \o "." \o r.attr) \in Modules
+BadChains(f) == {c \in FChains[f] : /\ NameBound(FMod[f], c.root) /\ ~ChainRes(FMod[f], c).ok
+                                    /\ (c.guard = "" \/ MissingIsSubmodule(ChainRes(FMod[f], c)))}
 (***************************************************************************)
 (* Local names (LocalsResolve).  For the functions in FlowFuncs the        *)
 (* extractor supplies the control-flow graph of the binding events of      *)
